@@ -1,3 +1,5 @@
 E1SRC := $(V)/engine/e1/sched.cpp $(V)/engine/e1/explorer.cpp
 $(eval $(call HARNESS,c01_photon,$(V)/harness/C01/c01_photon.cpp $(E1SRC),hook,-I$(V)/engine/e1 -fno-access-control,))
 $(eval $(call HARNESS,c01_split,$(V)/harness/C01/c01_split.cpp,plain,-fno-access-control,))
+$(eval $(call HARNESS,c01_tsan_run,$(V)/harness/C01/c01_tsan_run.cpp $(V)/engine/tsan/sched_free.cpp,tsan,,))
+$(eval $(call HARNESS,c01_tsan_audit,$(V)/harness/C01/c01_tsan_audit.cpp,plain,,))
